@@ -125,7 +125,10 @@ def run_job(spec):
                         if cr == 'sat':
                             covers.add(cname)
                 if len(out['witnesses']) < spec.get('n_witness', 3):
-                    out['witnesses'].append(_model_values(wm, ctx.inputs))
+                    # prefer a witness with moderate magnitudes (float replay: no overflow/underflow)
+                    bnd = [z3.And(v >= -50, v <= 50) for v in ctx.inputs.values() if z3.is_real(v)]
+                    tw2, wm2 = solve._run_z3(cons + bnd, 3000)
+                    out['witnesses'].append(_model_values(wm2 if tw2 == 'sat' else wm, ctx.inputs))
             nontrivial = False
             for gname, gterm, kregion in ctx.goals:
                 out['goals'] += 1
